@@ -360,7 +360,7 @@ class _bin_sizes:
     def _(a, old, result):
         sizes, dens, f = elems(result[0]), elems(result[1]), F(old.self)
         # densities are frequencies / bin_sizes (hence densities * bin_sizes == frequencies wherever the measure is non-zero)
-        return And(*[Implies(sizes[k] != 0, dens[k] == f[k] / sizes[k]) for k in range(len(f))])
+        return And(*[Implies(sizes[k] != 0, close(dens[k], div(f[k], sizes[k]))) for k in range(len(f))])
 
     @ensures("measures_are_additive_under_merging")     # (r1,r2)+(r2,r3) = (r1,r3) etc.: polynomial / telescoping identities
     def _(a, old, result):
